@@ -474,6 +474,98 @@ LOCKED_CMDS = [b'NOOP', b'CHECK', b'STATUS INBOX (MESSAGES UIDNEXT)',
                b'LOGOUT']
 
 
+HALFGONE_CMDS = [b'NOOP', b'CHECK', b'STATUS Gone (MESSAGES UIDNEXT)',
+                 b'FETCH 1 (FLAGS)', b'FETCH 1 (BODY[])',
+                 b'APPEND Gone {3+}\r\nabc', b'STORE 1 +FLAGS (\\Flagged)',
+                 b'EXPUNGE', b'SELECT Gone', b'EXAMINE Gone', b'COPY 1 Gone',
+                 b'LSUB "" *', b'LIST "" *', b'CLOSE', b'SEARCH ALL',
+                 b'UID FETCH 1:* (FLAGS)', b'DELETE Gone',
+                 b'RENAME Gone Gone2', b'IDLE', b'LOGOUT']
+
+
+async def case_halfgone(spec: dict[str, Any], ctx: Ctx) -> None:
+    """maildir: another session or process is in the middle of deleting a
+    folder (``remove_folder`` removes the files, then cur/new/tmp, then the
+    folder): the files and the three sub-directories are gone, the folder
+    itself is still there - or, second variant, everything is gone.  Commands
+    of a connection that has the folder selected, or names it, must be
+    answered (NO is fine) or the connection ended with a BYE that is not an
+    internal error."""
+    import os
+    rng = random.Random(spec['seed'])
+    env = await make_env(spec['backend'], {'testuser': 'testpass'})
+    try:
+        conn = await open_conn(env, 'auth', 1)
+        assert conn is not None
+        loop = conn.loop
+        await conn.simple(b'CREATE Gone')
+        await conn.simple(b'APPEND Gone ' + lit(
+            b'From: a@b\r\nSubject: s\r\n\r\nbody\r\n'))
+        if spec['selected']:
+            await conn.simple(b'SELECT Gone')
+        else:
+            await conn.simple(b'STATUS Gone (MESSAGES)')
+        udir = os.path.join(env.base_dir, 'testuser')
+        path = os.path.join(udir, 'Gone' if spec['backend'].endswith('fs')
+                            else '.Gone')
+        if not os.path.isdir(os.path.join(path, 'cur')):
+            ctx.aborted = 'halfgone-folder-not-found'
+            return
+        for root, dirs, files in os.walk(path, topdown=False):
+            for e in files:
+                os.remove(os.path.join(root, e))
+            for e in dirs:
+                os.rmdir(os.path.join(root, e))
+        if spec['all']:
+            os.rmdir(path)
+        ctx.count('halfgone_folders')
+        n = 1
+        for body in rng.sample(HALFGONE_CMDS, 4):
+            if conn is None or conn.dead:
+                break
+            n += 1
+            before = len(conn.responses)
+            BUDGET.reset()
+            line = b'h%d ' % n + body + b'\r\n'
+            conn.feed(line)
+            if body == b'IDLE':
+                await loop.quiescent()      # type: ignore[attr-defined]
+                await loop.advance(2.5)     # type: ignore[attr-defined]
+                await loop.quiescent()      # type: ignore[attr-defined]
+                if not conn.dead:
+                    conn.feed(b'DONE\r\n')
+            ctx.count('lines')
+            ctx.count('halfgone_commands')
+            answered = False
+            for _ in range(30):
+                await loop.quiescent()      # type: ignore[attr-defined]
+                new = conn.responses[before:]
+                if conn.dead or any(r.kind == 'tagged' or r.cond == b'BYE'
+                                    for r in new):
+                    answered = True
+                    break
+                await loop.advance(1.0)     # type: ignore[attr-defined]
+            BUDGET.reset()
+            what = '%r while the %sfolder Gone is %s' % (
+                line, 'selected ' if spec['selected'] else '',
+                'gone' if spec['all'] else 'half deleted (files and '
+                'cur/new/tmp removed, the folder not yet)')
+            if conn.dead:
+                await loop.quiescent()      # type: ignore[attr-defined]
+                if judge_close(ctx, conn, what):
+                    return
+                break
+            if not answered:
+                ctx.report('no-answer:folder-half-deleted',
+                           'no answer within 30 virtual seconds to ' + what,
+                           conn)
+                return
+            ctx.count('answered')
+        await canary(ctx, env)
+    finally:
+        env.cleanup()
+
+
 async def case_oversize(spec: dict[str, Any], ctx: Ctx) -> None:
     """A deployment with a small APPENDLIMIT (``max_append_len``): a message
     over the limit, spelled as a non-synchronising literal - whose octets
@@ -723,7 +815,8 @@ class C06(Check):
         'lines are kept below the 64 KiB StreamReader limit; TLS handshake '
         'is a no-op on the in-memory transport']
     floors = {'lines': 3000, 'answered': 2500, 'message_commands': 1000,
-              'sieve_lines': 300, 'canary': 100, 'pumped_messages': 1000}
+              'sieve_lines': 300, 'canary': 100, 'pumped_messages': 1000,
+              'halfgone_commands': 100}
     time_cap = {'quick': 90.0, 'thorough': 900.0}
 
     def cases(self, tier: str, seed: int) -> Iterable[dict[str, Any]]:
@@ -751,6 +844,10 @@ class C06(Check):
                    'limit': [64, 200, 1000, 5000, 10000][i % 5],
                    'over': [1, 0, 37, 3000, -1, 20000][i % 6],
                    'multi': i % 7 == 3}
+        for i in range(64 if tier == 'quick' else 640):
+            yield {'kind': 'halfgone', 'seed': seed * 1_000_003 + i,
+                   'backend': 'maildir' if i % 2 else 'maildir-fs',
+                   'selected': i % 4 < 2, 'all': i % 8 >= 6}
         for i in range(60 if tier == 'quick' else 600):
             yield {'kind': 'locked', 'seed': seed * 1_000_003 + i,
                    'backend': 'maildir' if i % 2 else 'maildir-fs',
@@ -803,6 +900,7 @@ class C06(Check):
         fn = {'lines': case_lines, 'message': case_message,
               'sieve': case_sieve, 'cross': case_cross,
               'pump': case_pump, 'locked': case_locked,
+              'halfgone': case_halfgone,
               'oversize': case_oversize,
               'script-lines': script_lines,
               'script-message': script_message}[
